@@ -631,6 +631,76 @@ func runC08StalledWriter(c *ev.Case, ctx *lib.Ctx, K, per, size int, viaMux bool
 	c.Event("blocked_handler_scenarios", 1)
 }
 
+// runC08Relay: the handler of connection 0 forwards what it received to connection 1 and is
+// blocked in that write (connection 1's peer does not read); connection 1's peer keeps sending
+// requests of its own.  They are dispatched, one after the other, as if nothing was wrong with
+// the other direction (Server.ReadTimeout is set, as relays usually do).
+func runC08Relay(c *ev.Case, ctx *lib.Ctx, size int, readTimeout time.Duration) {
+	sig := func(op string) ev.Sig { return ev.Sig{"op": op, "suite": "relay-blocked-writer"} }
+	var mu sync.Mutex
+	var dc1 diam.Conn
+	var seen1 []uint32
+	payload := bytes.Repeat([]byte{0x5a}, size)
+	hf := diam.HandlerFunc(func(dc diam.Conn, m *diam.Message) {
+		if dc.RemoteAddr().String() == "10.0.0.2:1000" {
+			mu.Lock()
+			dc1 = dc
+			seen1 = append(seen1, m.Header.HopByHopID)
+			mu.Unlock()
+			return
+		}
+		mu.Lock()
+		to := dc1
+		mu.Unlock()
+		fwd := diam.NewRequest(8388000, 0, ctx.Parser)
+		fwd.NewAVP(9001, 0x40, 0, datatype.OctetString(payload))
+		fwd.WriteTo(to) // blocks: connection 1's peer has stopped reading
+	})
+	srv := &diam.Server{Handler: hf, Dict: ctx.Parser, ReadTimeout: readTimeout}
+	ln := memnet.NewListener()
+	go srv.Serve(ln)
+	conns := []*memnet.Conn{memnet.NewConn(), memnet.NewConn()}
+	for i := range conns {
+		conns[i].Remote = memnet.Addr{Net: "tcp", Str: fmt.Sprintf("10.0.0.%d:1000", i+1)}
+		ln.Offer(conns[i])
+	}
+	conns[1].Script = func(seq int, b []byte) memnet.Outcome {
+		return memnet.Outcome{Accept: -1, StallAt: len(b) / 3, UntilClosed: true}
+	}
+	defer func() {
+		for i := range conns {
+			conns[i].FeedEOF()
+			conns[i].Close()
+		}
+		ln.Close()
+		synctest.Wait()
+	}()
+	conns[1].Feed(c08Msg(1, 1, 12, false))
+	synctest.Wait()
+	conns[0].Feed(c08Msg(0, 1, 12, false)) // its handler now blocks writing to connection 1
+	synctest.Wait()
+	const more = 5
+	for s := 2; s <= 1+more; s++ {
+		conns[1].Feed(c08Msg(1, uint32(s), 12, false))
+		synctest.Wait()
+	}
+	mu.Lock()
+	got := append([]uint32(nil), seen1...)
+	mu.Unlock()
+	if len(got) != 1+more {
+		c.Fail(sig("other-connection-delayed"), nil, nil, "a handler of connection 0 is blocked writing %d bytes to connection 1 (whose peer does not read, ReadTimeout %v): connection 1's own requests dispatched so far %v, %d were sent", size, readTimeout, got, 1+more)
+		return
+	}
+	for i, id := range got {
+		if id != uint32(i+1) {
+			c.Fail(sig("one-at-a-time-in-order"), nil, nil, "connection 1's requests were dispatched as %v", got)
+			return
+		}
+	}
+	c.Event("handler_invocations", 2+more)
+	c.Event("blocked_handler_scenarios", 1)
+}
+
 // c08Short: the scenario without the per-connection message counts (long for many connections)
 func c08Short(sc c08Scenario) string {
 	n := sc.perConn
@@ -664,8 +734,12 @@ func TestC08(t *testing.T) {
 	})
 	// one connection that lives long: 70 000 requests (more than any 16-bit counter holds), in
 	// bursts; every one is dispatched, once, in order
-	rec.Suite("long-connection", rec.N(1, 4), func(c *ev.Case) {
-		c.Class("long-connection/messages=70000")
+	rec.Suite("long-connection", rec.N(2, 4), func(c *ev.Case) {
+		// odd cases: the first handler asks for CloseNotify (everything then passes through the
+		// copy routine), every request is a segment of its own and the handlers are slower than
+		// the peer, so that segments queue up all along
+		notify := c.I%2 == 1
+		c.Class("long-connection/messages=70000/close-notify-and-backlog=%v", notify)
 		leak := runBubbleWD(t, rec, c, 120*time.Second, func() {
 			const total = 70000
 			var mu sync.Mutex
@@ -675,8 +749,15 @@ func TestC08(t *testing.T) {
 				if m.Header.HopByHopID != next && bad == "" {
 					bad = fmt.Sprintf("handler saw message %d, expected message %d", m.Header.HopByHopID, next)
 				}
+				first := next == 1
 				next++
 				mu.Unlock()
+				if notify {
+					if first {
+						_ = dc.(diam.CloseNotifier).CloseNotify()
+					}
+					time.Sleep(time.Millisecond)
+				}
 			})
 			mc := memnet.NewConn()
 			ln := memnet.NewListener()
@@ -690,6 +771,13 @@ func TestC08(t *testing.T) {
 			}()
 			var burst []byte
 			for s := uint32(1); s <= total; s++ {
+				if notify {
+					mc.Feed(seqMsg(s, []int{0, 12}[s%2]))
+					if s%50 == 0 {
+						time.Sleep(40 * time.Millisecond) // the peer stays some 10..50 segments ahead
+					}
+					continue
+				}
 				burst = append(burst, seqMsg(s, []int{0, 12}[s%2])...)
 				if s%1000 == 0 {
 					mc.Feed(burst)
@@ -697,6 +785,8 @@ func TestC08(t *testing.T) {
 					synctest.Wait()
 				}
 			}
+			time.Sleep(30 * time.Second)
+			synctest.Wait()
 			mu.Lock()
 			defer mu.Unlock()
 			if bad != "" || next != total+1 || mc.CloseCount() != 0 {
@@ -715,6 +805,15 @@ func TestC08(t *testing.T) {
 		leak := runBubbleWD(t, rec, c, 60*time.Second, func() { runC08StalledWriter(c, ctx, K, 3, size, c.I%2 == 0) })
 		if leak != "" && !c.Failed() {
 			c.Fail(ev.Sig{"op": "bubble-leak", "suite": "stalled-writer"}, nil, nil, "goroutines left blocked after the scenario ended: %s", leak)
+		}
+	})
+	rec.Suite("relay-blocked-writer", 6, func(c *ev.Case) {
+		size := []int{100, 5000, 70000}[c.I%3]
+		rt := []time.Duration{0, time.Hour}[c.I/3]
+		c.Class("relay-blocked-writer/bytes=%d/read-timeout=%v", size, rt)
+		leak := runBubbleWD(t, rec, c, 60*time.Second, func() { runC08Relay(c, ctx, size, rt) })
+		if leak != "" && !c.Failed() {
+			c.Fail(ev.Sig{"op": "bubble-leak", "suite": "relay-blocked-writer"}, nil, nil, "goroutines left blocked after the scenario ended: %s", leak)
 		}
 	})
 	rec.Suite("many-handshakes", 8, func(c *ev.Case) {
